@@ -355,11 +355,11 @@ def intern_matrix(w, A, want_inverse, assume_symmetric=False):
                              if not any(v is u for u in batch_comps) and v is not row and v is not col]
     order = occurring + [row, col]
     m = {v: ("H", k) for k, v in enumerate(order)}
-    form, _ = K._poly_form(p, m)
+    form, _ = K._poly_form(p, m, w.ctx)
     # symmetric matrices: canonical between (row,col) and (col,row)
     m2 = dict(m)
     m2[row], m2[col] = m[col], m[row]
-    form2, _ = K._poly_form(p, m2)
+    form2, _ = K._poly_form(p, m2, w.ctx)
     key = min(form, form2, key=repr)
     rule_ld = None
     if key in w.ld_rules_by_key:
@@ -396,10 +396,10 @@ def intern_matrix(w, A, want_inverse, assume_symmetric=False):
                     continue
                 m3 = dict(m)
                 m3[occurring[i_]], m3[occurring[j_]] = m[occurring[j_]], m[occurring[i_]]
-                f3, _ = K._poly_form(p, m3)
+                f3, _ = K._poly_form(p, m3, w.ctx)
                 m4 = dict(m3)
                 m4[row], m4[col] = m3[col], m3[row]
-                f4, _ = K._poly_form(p, m4)
+                f4, _ = K._poly_form(p, m4, w.ctx)
                 if key in (f3, f4):
                     groups.append((i_, j_))
         rec["batch_sym"] = groups
@@ -456,7 +456,7 @@ def cholesky_contract(A):
     occurring = [v for v in batch_comps if any(v is u for u in K._free_ivs_of_canon(p))]
     order = occurring + [row, col]
     m = {v: ("H", k) for k, v in enumerate(order)}
-    form, _ = K._poly_form(p, m)
+    form, _ = K._poly_form(p, m, w.ctx)
     reg = w.__dict__.setdefault("chol_registry", {})
     rec = reg.get(form)
     if rec is None:
@@ -474,10 +474,10 @@ def matrix_key(w, A):
     occurring = [v for v in batch_comps if any(v is u for u in K._free_ivs_of_canon(p))]
     order = occurring + [row, col]
     m = {v: ("H", k) for k, v in enumerate(order)}
-    form, _ = K._poly_form(p, m)
+    form, _ = K._poly_form(p, m, w.ctx)
     m2 = dict(m)
     m2[row], m2[col] = m[col], m[row]
-    form2, _ = K._poly_form(p, m2)
+    form2, _ = K._poly_form(p, m2, w.ctx)
     return min(form, form2, key=repr), A, occurring
 
 
@@ -487,7 +487,7 @@ def _scalar_key(w, A):
     p = K.normalize(A.expr, w.ctx)
     batch_comps = [c for a in A.axes[:-2] for c in a.comps]
     occurring = [v for v in batch_comps if any(v is u for u in K._free_ivs_of_canon(p))]
-    form, _ = K._poly_form(p, {v: ("H", k) for k, v in enumerate(occurring)})
+    form, _ = K._poly_form(p, {v: ("H", k) for k, v in enumerate(occurring)}, w.ctx)
     return form, A, occurring
 
 
